@@ -64,6 +64,9 @@ def derive_classes(meta, op, classes, phase, dname=""):
             cl.append("last_bucket_header_only")
     if kind in ("HASHHF", "HASHRPF") and meta.get("loadopt") in (2, 3) and (dname == "rr" or (dname == "r" and op == "save")):
         cl.append("resave_of_compact_hash")
+    if kind in ("HASHHF", "HASHRPF") and meta.get("loadopt") in (2, 3) and op == "lifecycle" and \
+            any("LogSequence::save" in s or "memcpy" in s or "Hash::save" in s for s in sites):
+        cl.append("resave_of_compact_hash")
     if kind == "XBW" and op == "save" and "crash" in classes and dname == "r":
         cl.append("xbw_resave")
     if kind == "XBW" and op in ("locateSubstr", "extractSubstr"):
@@ -181,8 +184,9 @@ def run(runobj, cfg, tier, seed, replay):
         run.extra["schema_log_tail"] = slog[-1500:] if not sok else ""
     ok, msg = vlib.build_oracle()
     run.oblige("extracted oracle builds", ok, msg)
-    exe, msg = vlib.build_driver("asan")
-    run.oblige("implementation + driver build from /repo working tree (ASan, -D%s)" % vlib.GUARD, exe is not None, msg)
+    exe, msg = vlib.build_driver("asan", extra_defs=getattr(cfg, "extra_defs", ()))
+    run.oblige("implementation + driver build from /repo working tree (ASan, -D%s %s)" % (vlib.GUARD, " ".join(getattr(cfg, "extra_defs", ()))),
+               exe is not None, msg)
     if exe is None or not ok:
         run.violation("build failed", {"kind": "build", "operation": "build", "detail": msg}, found_input=False)
         return
